@@ -277,12 +277,12 @@ Lemma tcs_entries_node f A hdr xs B : Forall (fun x => wf_size x = true) xs ->
   tcs_entries fuel f (A ++ be32 hdr ++ flat_map be32 (map word xs) ++ flat_map payload xs ++ B)
               (lenN done) (lenN xs) (lenN A + 4 + 4 * lenN done) (lenN A + 4 + 4 * lenN xs + sum_len done) back
   = if direct_hit f todo then Ok (inl true)
-    else Ok (inr (back ++ kid_offs (lenN A + 4 + 4 * lenN xs + sum_len done) todo)).
+    else Ok (inr (rev (kid_offs (lenN A + 4 + 4 * lenN xs + sum_len done) todo) ++ back)).
 Proof.
   intros Hxs. set (bs := A ++ be32 hdr ++ flat_map be32 (map word xs) ++ flat_map payload xs ++ B).
   induction todo as [|t todo IH]; intros done Exs fuel back Hf;
     (destruct fuel as [|fuel]; [cbn [length] in Hf; lia|]); cbn [tcs_entries].
-  - rewrite app_nil_r in Exs. subst done. rewrite N.ltb_irrefl. cbn [direct_hit existsb kid_offs]. rewrite app_nil_r. reflexivity.
+  - rewrite app_nil_r in Exs. subst done. rewrite N.ltb_irrefl. reflexivity.
   - assert (L : lenN done <? lenN xs = true) by (apply N.ltb_lt; rewrite Exs, lenN_app, lenN_cons; lia).
     rewrite L.
     assert (Ht : wf_size t = true) by (rewrite Exs in Hxs; apply Forall_app in Hxs; destruct Hxs as [_ Hxs]; inversion Hxs; assumption).
@@ -300,7 +300,7 @@ Proof.
       tcs_entries fuel f bs (lenN done + 1) (lenN xs) (lenN A + 4 + 4 * lenN done + 4)
                   (lenN A + 4 + 4 * lenN xs + sum_len done + lenN (payload t)) back'
       = if direct_hit f todo then Ok (inl true)
-        else Ok (inr (back' ++ kid_offs (lenN A + 4 + 4 * lenN xs + sum_len done + lenN (payload t)) todo))).
+        else Ok (inr (rev (kid_offs (lenN A + 4 + 4 * lenN xs + sum_len done + lenN (payload t)) todo) ++ back'))).
     { intros back'. specialize (IH (done ++ [t])). rewrite lenN_app, lenN_cons, lenN_nil, sum_len_app in IH.
       cbn [sum_len fold_right] in IH.
       replace (lenN done + 1) with (lenN done + (1 + 0)) by lia.
@@ -322,8 +322,8 @@ Proof.
         apply slice_mid'; [|reflexivity].
         rewrite !lenN_app, lenN_be32, len_flat_words, lenN_map, len_flat_payload. lia. }
       rewrite S1. destruct (f s0); [reflexivity|]. rewrite IH'. reflexivity.
-    + rewrite IH'. destruct (direct_hit f todo); [reflexivity|]. rewrite <- app_assoc. reflexivity.
-    + rewrite IH'. destruct (direct_hit f todo); [reflexivity|]. rewrite <- app_assoc. reflexivity.
+    + rewrite IH'. destruct (direct_hit f todo); [reflexivity|]. cbn [rev]. rewrite <- app_assoc. reflexivity.
+    + rewrite IH'. destruct (direct_hit f todo); [reflexivity|]. cbn [rev]. rewrite <- app_assoc. reflexivity.
 Qed.
 
 (* every offset pushed is the offset of the payload of the container it was pushed for *)
@@ -358,10 +358,10 @@ Lemma tcs_front_ok f bs : forall front ks, Forall2 (located bs) front ks -> Fora
   forall back, exists offs',
     Forall2 (located bs) offs' (filter is_container (flat_map items_of ks)) /\
     tcs_front f bs front back
-    = if direct_hit f (flat_map items_of ks) then Ok (inl true) else Ok (inr (back ++ offs')).
+    = if direct_hit f (flat_map items_of ks) then Ok (inl true) else Ok (inr (rev offs' ++ back)).
 Proof.
   induction 1 as [|off k front ks Hloc Hrest IH]; intros Hks back.
-  - exists []. split; [constructor|]. cbn [tcs_front flat_map direct_hit existsb]. rewrite app_nil_r. reflexivity.
+  - exists []. split; [constructor|]. reflexivity.
   - inversion Hks as [|? ? [Hwf Hc] Hks']; subst.
     destruct (container_layout k Hwf Hc) as (Epay & Hb & Hsize & Hsz & _).
     destruct Hloc as (A & B & Ebs & EA).
@@ -379,11 +379,11 @@ Proof.
     pose proof (kid_offs_located A (chdr k) xs B xs [] eq_refl) as K.
     rewrite <- Ebs' in K. cbn [sum_len fold_right] in K. rewrite N.add_0_r, EA in K.
     set (ko := kid_offs (off + 4 + 4 * lenN xs) xs) in *.
-    destruct (IH Hks' (back ++ ko)) as (offs & Hoffs & Hrun).
+    destruct (IH Hks' (rev ko ++ back)) as (offs & Hoffs & Hrun).
     exists (ko ++ offs). split.
     + rewrite filter_app. apply Forall2_app; assumption.
     + rewrite direct_hit_app. destruct (direct_hit f xs); cbn [bind orb]; [reflexivity|].
-      rewrite Hrun, <- app_assoc. reflexivity.
+      rewrite Hrun, rev_app_distr, <- app_assoc. reflexivity.
 Qed.
 
 (* ---- the tree side: the strings of a level are the strings among its items and the strings below *)
@@ -474,7 +474,7 @@ Proof.
   cbn [tcs_run].
   destruct (tcs_front_ok f bs (off :: front) (k :: ks) (Forall2_cons _ _ Hk Hrest) Hks []) as (offs & Hoffs & Hrun).
   rewrite Hrun. rewrite (strings_level f (k :: ks) Hks).
-  destruct (direct_hit f (flat_map items_of (k :: ks))); [reflexivity|]. cbn [bind app orb].
+  destruct (direct_hit f (flat_map items_of (k :: ks))); [reflexivity|]. cbn [bind orb]. rewrite rev_append_rev, !app_nil_r, rev_involutive.
   apply IH; [exact Hoffs|apply next_level_ok; exact Hks|].
   pose proof (next_level_depth (k :: ks) ltac:(discriminate)). lia.
 Qed.
@@ -516,4 +516,98 @@ Theorem traverse_check_string_w_enc v needle : wfb v = true -> top_ok v ->
 Proof.
   intros Hwf Htop. unfold traverse_check_string_w. rewrite (is_jsonb_enc v Hwf Htop).
   apply traverse_check_string_b_enc. exact Hwf.
+Qed.
+
+(* ================================================================ the fuels are never the reason for an answer *)
+(* On EVERY buffer (not only encodings) traverse_check_string_b ends with a boolean or a panic: the fuel of the entry
+   loop and the fuel of the level loop are never used up, so the model has no behaviour the code does not have. *)
+Lemma read_u32_some bs off w : read_u32 bs off = Some w -> off + 4 <= lenN bs.
+Proof.
+  unfold read_u32, slice. destruct (off + 4 <=? lenN bs) eqn:E; [intros _; apply N.leb_le; exact E|discriminate].
+Qed.
+
+Definition no_err {A} (r : res A) : Prop := match r with Err _ => False | _ => True end.
+
+Lemma tcs_entries_inv f bs lb : forall fuel i size joff voff back,
+  joff <= lenN bs -> lenN bs + 4 < joff + 4 * N.of_nat fuel ->
+  (i < size -> lb <= voff) -> Forall (fun o => lb <= o) back ->
+  match tcs_entries fuel f bs i size joff voff back with
+  | Ok (inr back') => Forall (fun o => lb <= o) back'
+  | Ok (inl _) => True
+  | Err _ => False
+  | Panic => True
+  end.
+Proof.
+  induction fuel as [|fuel IH]; intros i size joff voff back Hj Hf Hv Hb; [lia|].
+  cbn [tcs_entries]. destruct (i <? size) eqn:Ei; [|exact Hb]. apply N.ltb_lt in Ei.
+  destruct (read_u32 bs joff) as [e|] eqn:Er; [|exact I].
+  pose proof (read_u32_some bs joff e Er) as Hr. specialize (Hv Ei).
+  assert (Hf' : lenN bs + 4 < joff + 4 + 4 * N.of_nat fuel) by lia.
+  destruct (je_type e =? CONTAINER_TAG).
+  - apply IH; [exact Hr|exact Hf'|intros _; lia|].
+    constructor; [exact Hv|exact Hb].
+  - destruct (je_type e =? STRING_TAG).
+    + destruct (slice bs voff (je_len e)) as [s|]; [|exact I].
+      destruct (f s); [exact I|]. apply IH; [exact Hr|exact Hf'|intros _; lia|exact Hb].
+    + apply IH; [exact Hr|exact Hf'|intros _; lia|exact Hb].
+Qed.
+
+Lemma tcs_size_no_err hdr : no_err (tcs_size hdr).
+Proof.
+  unfold tcs_size. destruct (hdr_type hdr =? SCALAR_CONTAINER_TAG); [exact I|].
+  destruct (hdr_type hdr =? ARRAY_CONTAINER_TAG); [exact I|]. destruct (hdr_type hdr =? OBJECT_CONTAINER_TAG); exact I.
+Qed.
+
+Lemma tcs_front_inv f bs lb : forall front back,
+  Forall (fun o => lb <= o) front -> Forall (fun o => lb + 8 <= o) back ->
+  match tcs_front f bs front back with
+  | Ok (inr back') => Forall (fun o => lb + 8 <= o) back' /\ (front <> [] -> lb + 4 <= lenN bs)
+  | Ok (inl _) => True
+  | Err _ => False
+  | Panic => True
+  end.
+Proof.
+  induction front as [|o front IH]; intros back Hfr Hb; cbn [tcs_front].
+  - split; [exact Hb|]. intros H. contradiction H. reflexivity.
+  - inversion Hfr as [|? ? Ho Hfr']; subst.
+    destruct (read_u32 bs o) as [hdr|] eqn:Er; [|exact I].
+    pose proof (read_u32_some bs o hdr Er) as Hr.
+    pose proof (tcs_size_no_err hdr) as Hs. destruct (tcs_size hdr) as [size|e|]; [|contradiction Hs|exact I].
+    cbn [bind].
+    pose proof (tcs_entries_inv f bs (lb + 8) (S (length bs)) 0 size (o + 4) (o + 4 + 4 * size) back) as E.
+    assert (H1 : o + 4 <= lenN bs) by exact Hr.
+    assert (H2 : lenN bs + 4 < o + 4 + 4 * N.of_nat (S (length bs))) by (unfold lenN; lia).
+    specialize (E H1 H2 ltac:(lia) Hb).
+    destruct (tcs_entries (S (length bs)) f bs 0 size (o + 4) (o + 4 + 4 * size) back) as [[b|back']|e|]; cbn [bind];
+      [exact I| |exact E|exact I].
+    specialize (IH back' Hfr' E).
+    destruct (tcs_front f bs front back') as [[b|back'']|e|]; [exact I| |exact IH|exact I].
+    split; [apply IH|]. intros _. lia.
+Qed.
+
+Lemma tcs_run_no_err f bs : forall fuel lb front,
+  Forall (fun o => lb <= o) front -> lb <= lenN bs + 4 -> lenN bs + 12 < lb + 8 * N.of_nat fuel ->
+  no_err (tcs_run fuel f bs front).
+Proof.
+  induction fuel as [|fuel IH]; intros lb front Hfr Hlb Hf; [lia|].
+  cbn [tcs_run]. destruct front as [|o front]; [exact I|].
+  pose proof (tcs_front_inv f bs lb (o :: front) [] Hfr (Forall_nil _)) as F.
+  destruct (tcs_front f bs (o :: front) []) as [[b|back]|e|]; cbn [bind]; [exact I| |contradiction F|exact I].
+  destruct F as [Hback Hlen]. specialize (Hlen ltac:(discriminate)).
+  apply (IH (lb + 8)); [rewrite rev_append_rev, app_nil_r; apply Forall_rev; exact Hback|lia|lia].
+Qed.
+
+Theorem traverse_check_string_b_no_err bs f : no_err (traverse_check_string_b bs f).
+Proof.
+  unfold traverse_check_string_b. apply (tcs_run_no_err f bs _ 0).
+  - constructor; [lia|constructor].
+  - lia.
+  - unfold lenN. lia.
+Qed.
+
+Corollary traverse_check_string_b_total bs f :
+  (exists b, traverse_check_string_b bs f = Ok b) \/ traverse_check_string_b bs f = Panic.
+Proof.
+  pose proof (traverse_check_string_b_no_err bs f) as H.
+  destruct (traverse_check_string_b bs f) as [b|e|]; [left; exists b; reflexivity|contradiction H|right; reflexivity].
 Qed.
